@@ -143,7 +143,7 @@ func c16Association(c *eng.Ctx) {
 					start = append(start, eng.CallOKEdges(p)...)
 				}
 				// the one reviewed skip: the entry is one of the issuers' own certificates (handled by augmentWithRevokedIssuers)
-				blocked := eng.CondEdges(f, `^φrevokedCertIsIssuer`, true)
+				blocked, _ := c16IssuerSkip(f)
 				bar := append(append([]ssa.Instruction{}, place...), unassigned...)
 				if h := eng.Reach(eng.Query{Fn: f, StartEdges: start, Blocked: blocked, Barriers: bar, Target: eng.IsTarget(header)}); h != nil {
 					c.Violation(f, site, h.Instr.Pos(), "the loop can move on to the next revoked serial without adding the entry to any list: the certificate silently drops off every CRL", h.Witness)
